@@ -318,15 +318,15 @@ func TestVerif_C35_faults(t *testing.T) {
 }
 
 func c35FaultRun(rt *rapid.T, srv *vsql.Server, admin *vsql.Session, scratch string, rec *vh.Recorder) {
-	db := srv.NewDBName()
-	admin.MustExec(rt, "CREATE DATABASE "+db)
-	defer admin.Exec("DROP DATABASE " + db)
+	db := gcDrawDBName(rt, srv, "db")
+	admin.MustExec(rt, "CREATE DATABASE `"+db+"`")
+	defer admin.Exec("DROP DATABASE `" + db + "`")
 	c := &c35FaultCase{rt: rt, base: filepath.Join(scratch, db+"-faults")}
 	if err := os.MkdirAll(c.base, 0o755); err != nil {
 		rt.Fatalf("mkdir: %v", err)
 	}
 	defer os.RemoveAll(c.base)
-	se := srv.Session(rt, "a", db)
+	se := srv.Session(rt, "a", gcSpell(rt, "author", db))
 	defer se.Close()
 	x := func(q string) {
 		rt.Helper()
